@@ -66,14 +66,12 @@ theorem entryUnknown_np (D : DOpts) (limit : Int) (v : TV) : entryUnknown D limi
   unfold entryUnknown
   split
   · simp
-  · split
-    · cases hs : skipTFix limit v with
-      | error e =>
-        have := skipTFix_err limit v e hs
-        subst this
-        simp
-      | ok u => simp
-    · simp
+  · cases hs : skipT limit v with
+    | error e =>
+      have := skipT_err limit v e hs
+      subst this
+      simp
+    | ok u => simp
 
 theorem tdEntryHead_np (D : DOpts) (ed : MsgX) (limit : Int) (name : TName) (sep : Bool) (v : TV) (st : EntrySt) :
     tdEntryHead D ed limit name sep v st ≠ .error .panic := by
